@@ -27,7 +27,11 @@ TRUSTED = [
     'collections.OrderedDict is the oracle of the sequential monitor',
     'the abstract insertion-ordered cache of model/QCache.v stands for Cache get/set/del/pop/add/peekitem/iteration (C03)',
     'the micro-step machine of model/IndexConc.v (reader = SELECT, open; writer = store, BEGIN, UPDATE, COMMIT, remove) '
-    'is validated by replaying its witness schedule on the implementation',
+    'is validated by replaying its witness schedule on the implementation and by comparing its predicted lookup outcome with '
+    'the implementation on random schedules of one lookup against 1-2 replacements (inline and file-backed values)',
+    'tools/emit_persistent.py templates: every Deque/Index method body is matched against a source template, the holes are '
+    'compiled to Gen_Persistent.v and pinned by proofs/PersistentBridge.v',
+    'the key/value encoding of the correspondence (Python objects -> integers, equal objects equal ids)',
 ]
 ASSUMPTIONS = [
     'keys are ones on which cache key identity coincides with Python equality: no bool keys next to 0/1, no tuples '
@@ -35,6 +39,10 @@ ASSUMPTIONS = [
     'no other writer stores into the index directory',
     'iterators and views are consumed immediately',
     'values are compared with Python ==',
+    'concurrent clause: atomicity of each single Index call (one transaction; popitem = peekitem + delete inside one transact '
+    'block, pinned by the translator) is taken from C05/C06; proved here: the continuous-presence clause on the micro-step '
+    'machine for one key, one lookup, any number of replacing writers, every schedule',
+    'mappings compared with == / != have distinct keys (they are dicts)',
 ]
 
 KNOWN_SIG = 'lookup_overlapping_replace'
@@ -597,9 +605,257 @@ def sequential(ctx, res, nhist, stats):
 # (b) correspondence
 
 
+class Unencodable(Exception):
+    pass
+
+
+class Encoder:
+    """Python keys/values -> integer ids for the Coq model: objects that are equal (==) get equal ids."""
+
+    def __init__(self):
+        self.table = []
+
+    def id(self, v):
+        if isinstance(v, (bool, int, float)):
+            x = 2 * v
+            if x != int(x) or abs(x) > 10 ** 6:
+                raise Unencodable(repr(v))
+            return int(x)
+        if v is None:
+            return 10000000
+        if isinstance(v, (str, bytes, tuple)):
+            for i, t in enumerate(self.table):
+                if type(t) is type(v) and t == v:
+                    return 20000000 + i
+            self.table.append(v)
+            return 20000000 + len(self.table) - 1
+        raise Unencodable(repr(v))
+
+    def ids(self, vs):
+        return fw.czlist([self.id(v) for v in vs])
+
+    def pairs(self, ps):
+        return fw.clist(['(%d, %d)' % (self.id(k), self.id(v)) for k, v in ps])
+
+
+def coq_ix_event(enc, e):
+    op, a = e['op'], e['args']
+    z = lambda v: fw.cz(enc.id(v))      # noqa: E731
+    if op == 'setitem':
+        return 'XOp (ISet %s %s)' % (z(a[0]), z(a[1]))
+    if op == 'getitem':
+        return 'XOp (IGet %s)' % z(a[0])
+    if op == 'delitem':
+        return 'XOp (IDel %s)' % z(a[0])
+    if op == 'pop':
+        return 'XOp (IPop %s)' % z(a[0])
+    if op == 'pop_default':
+        return 'XOp (IPopDefault %s %s)' % (z(a[0]), z(a[1]))
+    if op == 'popitem':
+        return 'XOp (IPopItem %s)' % fw.cbool(bool(a[0]))
+    if op == 'peekitem':
+        return 'XOp (IPeekItem %s)' % fw.cbool(bool(a[0]))
+    if op == 'setdefault':
+        return 'XOp (ISetDefault %s %s)' % (z(a[0]), z(a[1]))
+    if op == 'update':
+        return 'XOp (IUpdate %s)' % enc.pairs(list(a[0]))
+    if op in ('keys', 'values', 'items', 'iter', 'reversed', 'len', 'clear'):
+        return 'XOp %s' % {'keys': 'IKeys', 'values': 'IValues', 'items': 'IItems', 'iter': 'IIter', 'reversed': 'IReversed',
+                          'len': 'ILen', 'clear': 'IClear'}[op]
+    if op in EQ_OPS:
+        ordered = op.endswith('_ordered') and not op.endswith('unordered')
+        eff = list(OrderedDict(list(a[0])).items()) if ordered else list(dict(list(a[0])).items())
+        return 'XOp (%s %s %s)' % ('IEq' if op.startswith('eq') else 'INe', 'MK_OrderedDict' if ordered else 'MK_dict',
+                                   enc.pairs(eff))
+    if op == 'get':
+        return 'XOp (IGetDefault %s %s)' % (z(a[0]), z(a[1]))
+    if op == 'contains':
+        return 'XOp (IContains %s)' % z(a[0])
+    if op == 'reopen':
+        return 'XReopen'
+    if op == 'pickle':
+        return 'XPickle'
+    raise Unencodable(op)
+
+
+def coq_ix_res(enc, r):
+    k = r[0]
+    if k == 'none':
+        return 'RNone'
+    if k == 'val':
+        return '(RVal %s)' % fw.cz(enc.id(r[1]))
+    if k == 'pair':
+        return '(RPair %s %s)' % (fw.cz(enc.id(r[1])), fw.cz(enc.id(r[2])))
+    if k == 'int':
+        return '(RInt %s)' % fw.cz(r[1])
+    if k == 'bool':
+        return '(RBool %s)' % fw.cbool(r[1])
+    if k == 'list':
+        return '(RList %s)' % enc.ids(r[1])
+    if k == 'pairs':
+        return '(RPairs %s)' % enc.pairs(r[1])
+    if k == 'raise' and r[1] in ('KeyError', 'IndexError', 'ValueError', 'TypeError'):
+        return '(RRaise %s)' % r[1]
+    raise Unencodable(repr(r))
+
+
+def coq_ix_history(h, upto=None):
+    """(check term, number of calls) or None if the history cannot be expressed in the model."""
+    try:
+        enc = Encoder()
+        init = enc.pairs(h['init'])
+        evs = h['events'] if upto is None else h['events'][:upto]
+        events, expected = [], []
+        for e in evs:
+            events.append(coq_ix_event(enc, e))
+            expected.append('(%s, %s)' % (coq_ix_res(enc, e['res']), enc.pairs(e['items'])))
+        return 'ix_check %s %s %s' % (init, fw.clist(events), fw.clist(expected)), len(events)
+    except Unencodable:
+        return None
+
+
+def model_case(h, upto=None):
+    evs = h['events'] if upto is None else h['events'][:upto]
+    return {'check': 'index_model', 'kind': h['kind'], 'init': [[repr(k), repr(v)] for k, v in h['init']],
+            'ops': [[e['op'], [repr(x) for x in e['args']]] for e in evs],
+            'impl_results': [repr(e['res']) for e in evs], 'impl_items': [repr(e['items']) for e in evs][-2:]}
+
+
+COQ_IMPORTS = ['DCPrelude', 'PersistentBase', 'Gen_Persistent', 'QCache', 'Index', 'IndexConc']
+
+
 def correspondence(ctx, res, histories, limit):
-    """model vs implementation; filled in by the Coq side."""
-    return
+    """Model vs implementation: every history is run through the Coq model of Index (model/Index.v, which calls the
+    definitions generated from persistent.py) AND through the OrderedDict specification od_step; result and
+    list(index.items()) after every call must equal what the implementation produced."""
+    chosen, total, skipped = [], 0, 0
+    order = list(range(len(histories)))
+    ctx.rng.shuffle(order)
+    for i in order:
+        h = histories[i]
+        if not h['events']:
+            continue
+        t = coq_ix_history(h)
+        if t is None:
+            skipped += 1
+            continue
+        if total + t[1] > limit and chosen:
+            break
+        chosen.append((h, t[0]))
+        total += t[1]
+    res.extra['model_histories'] = len(chosen)
+    res.extra['model_calls'] = total
+    res.extra['model_histories_not_expressible'] = skipped
+    if not chosen:
+        return
+    checks = [t for _, t in chosen]
+    bad, errors = fw.coq_mismatches('c12', COQ_IMPORTS, '', checks, chunk=60)
+    res.traces_validated += len(checks) - len(bad)
+    for e in errors:
+        res.disagreements.append(fw.Violation('model-eval', 'model evaluation failed: ' + e[-400:], {}, 'correspondence'))
+    for i in bad[:3]:
+        h, term = chosen[i]
+        n = len(h['events'])
+        prefixes = [coq_ix_history(h, k)[0] for k in range(1, n + 1)]
+        bad2, _ = fw.coq_mismatches('c12p', COQ_IMPORTS, '', prefixes, chunk=60)
+        upto, where = None, ''
+        if bad2:
+            upto = min(bad2) + 1
+            e = h['events'][upto - 1]
+            where = ': first disagreement at call %d, %s(%s) -> implementation %r, items %r' % (
+                upto, e['op'], ', '.join(repr(x) for x in e['args']), e['res'], e['items'])
+        res.disagreements.append(fw.Violation(
+            'index_model', 'the Coq model of Index (or the OrderedDict specification) disagrees with diskcache.Index' + where,
+            model_case(h, upto), 'correspondence'))
+    res.sample({'model_check_example': checks[0][:300]})
+
+
+# -- the micro-step machine of model/IndexConc.v against the implementation under the scheduler
+
+
+def machine_schedule(log, nwriters, file_backed):
+    """Scheduler log [(cid, 'kind:what')] -> schedule of the Coq machine (0 = reader, i+1 = writer i).
+    reader: SELECT, open-read.  writer: create (= store), BEGIN (every attempt), UPDATE, COMMIT, remove.  The machine gives
+    every writer a store step and a remove step; for inline values the implementation has no such event, so the store step is
+    inserted before the writer's first BEGIN (it changes nothing) and the remove steps are appended at the end."""
+    out = []
+    stored = [False] * nwriters
+    for c, ev in log:
+        if c == 0:
+            if ev in ('sql:SELECT', 'file:open-read'):
+                out.append(0)
+            continue
+        w = c - 1
+        if ev == 'file:create':
+            stored[w] = True
+            out.append(c)
+        elif ev == 'sql:BEGIN':
+            if not stored[w]:
+                stored[w] = True
+                out.append(c)
+            out.append(c)
+        elif ev in ('sql:UPDATE', 'sql:COMMIT', 'file:remove'):
+            out.append(c)
+    for w in range(nwriters):
+        out.append(w + 1)           # remove step of writers whose old value was inline (no-op) -- harmless if already done
+    return out
+
+
+def machine_correspondence(ctx, res, nruns):
+    """Random schedules of one lookup against 1-2 replacements of the same key (inline and file-backed values): the outcome
+    of the lookup (value found / KeyError) must be what the Coq machine computes for the translated schedule."""
+    rng = ctx.rng
+    cases = []
+    hits = 0
+    for r in range(nruns):
+        file0 = rng.random() < 0.6
+        nw = rng.choice([1, 1, 2])
+        wfile = [rng.random() < 0.6 for _ in range(nw)]
+        val = lambda i, f: ('v%d' % i) * 10 if f else i      # noqa: E731
+        v0 = val(7, file0)
+        news = [val(8 + i, wfile[i]) for i in range(nw)]
+        sched_ = [rng.randrange(nw + 1) for _ in range(rng.randint(0, 6))]
+        if rng.random() < 0.5:
+            sched_ = [0] + [rng.randrange(1, nw + 1) for _ in range(rng.randint(5, 25))] + [0]
+        d = tempfile.mkdtemp(prefix='c12m-')
+        try:
+            result, outcomes, final = run_conc(d, [('k', v0)], [[('get', 'k')]] + [[('set', 'k', n)] for n in news], sched_)
+        finally:
+            shutil.rmtree(d, ignore_errors=True)
+        if result['overflow'] or not outcomes[0]:
+            continue
+        res.count(['machine', file0, wfile, result['schedule_used']], nontrivial=True)
+        log = [(c, e) for c, e, _ in result['log']]
+        ms = machine_schedule(log, nw, wfile)
+        o = outcomes[0][0][1]
+        ids = {repr(v0): 7}
+        for i, n in enumerate(news):
+            ids[repr(n)] = 8 + i
+        if o[0] == 'KeyError':
+            want = 'Some None => true | _ => false'
+            hits += 1
+        elif o[0] == 'ok' and repr(o[1]) in ids:
+            want = 'Some (Some v) => v =? %d | _ => false' % ids[repr(o[1])]
+        else:
+            res.disagreements.append(fw.Violation('index_machine', 'unexpected lookup outcome %r' % (o,), {}, 'correspondence'))
+            continue
+        term = 'match lookup_result (run (init %s 7 %s) %s) with %s end' % (
+            fw.cbool(file0), fw.clist(['(%d, %s)' % (8 + i, fw.cbool(wfile[i])) for i in range(nw)]),
+            '[' + '; '.join('%d%%nat' % c for c in ms) + ']', want)
+        cases.append((term, {'check': 'index_machine', 'file0': file0, 'writers_file_backed': wfile, 'schedule': sched_,
+                             'log': [list(x) for x in log], 'machine_schedule': ms, 'lookup_outcome': [o[0], repr(o[1])[:40]]}))
+    res.extra['machine_runs'] = len(cases)
+    res.extra['machine_runs_lookup_keyerror'] = hits
+    if not cases:
+        return
+    bad, errors = fw.coq_mismatches('c12m', COQ_IMPORTS, '', [t for t, _ in cases], chunk=200)
+    res.traces_validated += len(cases) - len(bad)
+    for e in errors:
+        res.disagreements.append(fw.Violation('model-eval', 'model evaluation failed: ' + e[-400:], {}, 'correspondence'))
+    for i in bad[:3]:
+        res.disagreements.append(fw.Violation(
+            'index_machine', 'the micro-step machine of model/IndexConc.v predicts another lookup outcome than the implementation showed',
+            cases[i][1], 'correspondence'))
 
 
 # ---------------------------------------------------------------------------
@@ -1035,8 +1291,9 @@ def run(ctx):
     stats = {}
     nhist, nsched = (250, 60) if ctx.quick else (2500, 600)
     histories = sequential(ctx, res, nhist, stats)
-    correspondence(ctx, res, histories, 1500 if ctx.quick else 6000)
+    correspondence(ctx, res, histories, 7000 if ctx.quick else 30000)
     concurrent(ctx, res, nsched, stats)
+    machine_correspondence(ctx, res, 40 if ctx.quick else 400)
     runs = []
     res.witnessed[KNOWN_SIG] = witness_lookup_overlapping_replace(runs)
     witness_variants(res, runs)
@@ -1056,9 +1313,32 @@ def search(ctx, broken):
 
 
 def replay(payload):
+    if payload.get('kind') == 'broken-obligation':
+        # no failing input was found by the monitors; re-run the histories attached to broken correspondences (if any)
+        ok = True
+        for ob in payload.get('obligations', []):
+            print('broken obligation: %s -- %s' % (ob.get('name'), str(ob.get('detail'))[:300]))
+            if isinstance(ob.get('case'), dict) and ob['case'].get('check'):
+                ok = replay({'case': ob['case']}) and ok
+        return ok
     case = payload.get('case', {})
     check = case.get('check')
-    if check == 'index_history':
+    if check == 'index_machine':
+        # one lookup against replacements under the recorded schedule; the property says the lookup must find the key
+        news = [('v%d' % (8 + i)) * 10 if f else 8 + i for i, f in enumerate(case['writers_file_backed'])]
+        v0 = 'v7' * 10 if case['file0'] else 7
+        d = tempfile.mkdtemp(prefix='c12r-')
+        try:
+            result, outcomes, final = run_conc(d, [('k', v0)], [[('get', 'k')]] + [[('set', 'k', n)] for n in news],
+                                               case['schedule'])
+        finally:
+            shutil.rmtree(d, ignore_errors=True)
+        for c, e, _ in result['log']:
+            print('  client %d  %s' % (c, e))
+        o = outcomes[0][0][1] if outcomes[0] else ('error', None)
+        print('lookup outcome:', o[0], repr(o[1])[:60])
+        return o[0] == 'ok'
+    if check in ('index_history', 'index_model'):
         kind = case['kind']
         init = [(ev(k), ev(v)) for k, v in case['init']]
         ops = [(op, [ev(a) for a in args]) for op, args in case['ops']]
